@@ -10,9 +10,9 @@ func viewProfile() *Profile {
 	return &Profile{
 		Ops: scale(allDocOps, map[string]int{"Set": 14, "Add": 8, "WriteCas": 12, "Delete": 8, "Update": 8, "WriteWithXattrs": 9, "SetXattrs": 6,
 			"WriteTombstoneWithXattrs": 5, "WriteResurrectionWithXattrs": 4, "DeleteWithXattrs": 3, "RemoveXattrs": 3, "Incr": 1, "AddRaw": 3, "SetRaw": 3,
-			"WriteSubDoc": 3, "SubdocInsert": 1, "Touch": 1, "GetAndTouchRaw": 1}),
+			"WriteSubDoc": 0, "SubdocInsert": 0, "Touch": 1, "GetAndTouchRaw": 1}),
 		Keys:        []string{"a", "b", "c", "d"},
-		MultiHandle: true, Purge: 2, Reopen: 1,
+		MultiHandle: true, Purge: 2, Reopen: 1, KeepFeeds: true,
 		JSONBody: genViewBody,
 		Config: func(rt *rapid.T, c *Config) {
 			// one multi-collection live feed: the oracle learns each version's JSON datatype from it
